@@ -61,7 +61,15 @@ func Verif_C18_rdns() {
 	nh := V.ParamInt("hops", 2)
 	var r Results
 	run := TracerouteRun{}
-	run.Destination.IPAddress = net.IP(V.Bytes("dst", 4))
+	// addresses come in 4-byte or (IPv4-mapped) 16-byte form, as net.ParseIP / To4 / AsSlice produce them
+	symAddr := func(tag string) net.IP {
+		b := V.Bytes(tag, 4)
+		if V.Bool(tag + "16") {
+			return net.IPv4(b[0], b[1], b[2], b[3])
+		}
+		return net.IP(b)
+	}
+	run.Destination.IPAddress = symAddr("dst")
 	type snap struct {
 		ttl  int
 		ip   []byte
@@ -72,7 +80,7 @@ func Verif_C18_rdns() {
 	for j := 0; j < nh; j++ {
 		h := &TracerouteHop{TTL: j + 1, RTT: V.F64("rtt"), IsDest: V.Bool("isdest")}
 		if V.Bool("answered") {
-			h.IPAddress = net.IP(V.Bytes("hopip", 4))
+			h.IPAddress = symAddr("hopip")
 		}
 		run.Hops = append(run.Hops, h)
 		before = append(before, snap{h.TTL, append([]byte(nil), h.IPAddress...), h.RTT, h.IsDest})
